@@ -40,6 +40,7 @@ func gen(r *sim.Rng, tier string) *sim.Case {
 		// where on the time axis the run sits: 0 near start, 1 somewhere, 2 just below 2^41 ms, 3 before the start, 4 beyond 2^41 ms
 		p["region"] = r.Pick(4, 4, 2, 1, 1)
 		p["emode"] = r.Pick(6, 1, 1)
+		p["default_id"] = r.Pick(5, 1)
 		p["echunk"] = []int{0, 0, 1, 2}[r.N(4)]
 		if r.Pct(25) {
 			p["efail"] = 1 + r.N(4)
@@ -138,6 +139,13 @@ func idGen(c *sim.Case, r *sim.Rng, out *sim.WorkerOut, dg *engc.Digest) (*sim.V
 	start := stime.Base.Add(stime.Duration(startNs))
 	rb := p["randbit"]
 	g := randz.NewIdGenerator(start, rb)
+	useDefault := p["default_id"] == 1
+	if useDefault {
+		// the package-level generator: documented as 18 random bits above which the
+		// milliseconds since the configured start time sit
+		randz.SetIdGeneratorStartTime(start)
+		rb = 18
+	}
 	// the clock at the first read
 	var now int64
 	switch p["region"] {
@@ -175,7 +183,12 @@ func idGen(c *sim.Case, r *sim.Rng, out *sim.WorkerOut, dg *engc.Digest) (*sim.V
 		}
 		stime.Clock = now
 		reads0 := stime.Reads
-		id := int64(g.Generate())
+		var id int64
+		if useDefault {
+			id = int64(randz.Id())
+		} else {
+			id = int64(g.Generate())
+		}
 		if stime.Reads == reads0 {
 			out.Notes = appendOnce(out.Notes, "IdGenerator.Generate did not read the simulated clock")
 		}
@@ -215,6 +228,9 @@ func idGen(c *sim.Case, r *sim.Rng, out *sim.WorkerOut, dg *engc.Digest) (*sim.V
 	out.Faults["clock_read"] += stime.Reads
 	if p["region"] >= 2 {
 		out.Faults["clock_extreme_region"]++
+	}
+	if useDefault {
+		out.Probes["package_level_Id()"]++
 	}
 	boundary := false
 	for _, op := range c.Ops {
